@@ -8,7 +8,7 @@ CONSTANTS
   DefLimit = 1000
   Acts = {"groups","relays","snaps"}
   Nids = {"n1","n2"}
-  Epochs = {1}
+  Epochs = {1,2}
   Ptrs = {}
   Relays = {"r1"}
   SecEpochs = {0}
